@@ -3,6 +3,7 @@ import BddProofs.QueryFrame
 import BddProofs.TotalQuery
 import BddProofs.PathsSum
 import BddProofs.Init
+import BddProofs.Bits
 /-! # C14 — `one_sat` and `paths` describe exactly the satisfying set
 
 `Sat e p`: the assignment `e` satisfies every signed literal of `p`.  `paths` is the explicit-stack
@@ -72,6 +73,16 @@ theorem C14_lazy_iterator_is_snapshot {s0 s : St} {f : Ref} {fuel : Nat} {ts : L
     paths (fuel + ts.length) s0 f = some out :=
   paths_lazy_steps hg hf hts hs h
 
+/-- the literals `one_sat` and `paths` push are `variable as i32` and `-(variable as i32)`.  For every
+variable `1 ≤ v ≤ 2^31 − 1` these are the integers `v` and `−v` of the model, and reading them back
+(`unsigned_abs`, `< 0`) gives the variable and the polarity; beyond that the cast wraps
+(`Bits.lit_min_witness`; DESIGN §10) -/
+theorem C14_literal_words (v : BitVec 32) (h1 : 1 ≤ v.toNat) (h2 : v.toNat ≤ 2147483647) :
+    ((Bits.litPos v).toInt = v.toNat ∧ Bits.litIsNeg (Bits.litPos v) = false ∧ Bits.litUnsignedAbs (Bits.litPos v) = v) ∧
+    ((Bits.litNeg v).toInt = -(v.toNat : Int) ∧ Bits.litIsNeg (Bits.litNeg v) = true ∧ Bits.litUnsignedAbs (Bits.litNeg v) = v) :=
+  ⟨⟨(Bits.lit_pos_roundtrip v h1 h2).2.2.2, (Bits.lit_pos_roundtrip v h1 h2).1, (Bits.lit_pos_roundtrip v h1 h2).2.2.1⟩,
+   ⟨(Bits.lit_neg_roundtrip v h1 h2).2.2.2, (Bits.lit_neg_roundtrip v h1 h2).1, (Bits.lit_neg_roundtrip v h1 h2).2.2.1⟩⟩
+
 end P
 #print axioms P.C14_one_sat_none
 #print axioms P.C14_one_sat_some
@@ -82,3 +93,4 @@ end P
 #print axioms P.C14_paths_total
 #print axioms P.C14_answers_survive_history
 #print axioms P.C14_lazy_iterator_is_snapshot
+#print axioms P.C14_literal_words
